@@ -379,6 +379,10 @@ func (d *driver) runLegacy(ld *ldef, seed int64, emit bool, edge []string) {
 // ---- main ---------------------------------------------------------------------------------------------------
 
 func main() {
+	if spec := os.Getenv("C16_CHILD"); spec != "" {
+		childMain(spec)
+		return
+	}
 	o := hx.ParseOpts()
 	res := hx.NewResult(o, "valid13/current: PRNG-generated definitions (0-5 nodes, all action/router/wait types of the source version, "+
 		"0-4 languages, templating in the shape of the version, over-long names, @webhook templates); legacy: flows composed from goflow's "+
@@ -440,6 +444,9 @@ func main() {
 		d.runLegacy(ld, int64(o.Seed)*104729+int64(i), i%8 == 0, how)
 	}
 	d.flushLeg()
+
+	// hostile definitions that can kill the process: each in a child process
+	runHostile(d)
 
 	// malformed stream
 	rm := r.Fork("malformed")
